@@ -377,9 +377,17 @@ func nativeReplay(results []*symx.CaseResult) (*replayReport, error) {
 			rc.Witnesses = append(rc.Witnesses, r.Witnesses[i])
 			rr = append(rr, ref{res: r})
 		}
+		seenRace := map[string]bool{}
 		for _, v := range r.Violations {
 			switch v.Kind {
 			case "write", "race":
+				if v.Kind == "race" {
+					// one native run per pair of racing sites and case is enough
+					if seenRace[v.ID] {
+						continue
+					}
+					seenRace[v.ID] = true
+				}
 				rrc.Witnesses = append(rrc.Witnesses, symx.Witness{Vector: v.Vector, Outcome: "race"})
 				rrr = append(rrr, ref{res: r, viol: v})
 				continue
